@@ -144,9 +144,16 @@ def expected(kind, base_hist, t):
     """base_hist: values poked on the underlying free wire, one per simulated cycle
     since power-up.  kind '' / 'in' = the wire itself (or a port attached to it),
     'out' = the output of a buffer fed by it (same value once settled),
-    'q' / 'qport' = output of a D register fed by it (previous cycle's value, 0 at power-up)."""
+    'q' / 'qport' = output of a D register fed by it (previous cycle's value, 0 at power-up),
+    'gq' = output of a D register fed by it whose own clock driver is enabled by it (last non-zero value, 0 before)."""
     if kind in ('', 'in', 'out'):
         return base_hist[t]
     if kind in ('q', 'qport'):
         return base_hist[t - 1] if t > 0 else 0
+    if kind == 'gq':
+        # a D register fed by the wire and clocked only at edges entered with a non-zero value on that same wire
+        for v in reversed(base_hist[:t]):
+            if v != 0:
+                return v
+        return 0
     raise ValueError(kind)
